@@ -2,7 +2,7 @@
   Proofs for part C10C: IRI expansion of the model (without a local context) computes what the fragment
   semantics Spec/JsonLdFragment.lean computes, on corresponding contexts.
 -/
-import RdfModel.Model.JsonLdContext
+import RdfModel.Proofs.C10CtxPanic
 namespace RdfModel.JLC
 open RdfModel RdfModel.JL
 
@@ -164,5 +164,30 @@ theorem iriExpandBody_refines (ops : IriOps P) (cb : St P → Str → Res P Unit
     have : (if vocab = true then sc.term? v else none) = none := by cases vocab <;> simp [hs]
     simp only [this]
     exact iriExpandRest_refines ops cb st sc v docRel vocab hc
+
+end RdfModel.JLC
+
+namespace RdfModel.JLC
+open RdfModel RdfModel.JL
+
+variable {P : Type}
+
+def Res.NoFuel {α : Type} : Res P α → Prop
+  | .fuel => False
+  | _ => True
+
+theorem expandTail_noFuel (ops : IriOps P) (c : Core P) (st : St P) (s : Str) (d v : Bool) :
+    (expandTail ops c st s d v).NoFuel := by
+  unfold expandTail
+  repeat' split
+  all_goals simp [Res.NoFuel]
+
+/-- without a local context IRI expansion makes no nested call: it cannot run out of fuel -/
+theorem iriExpandBody_noFuel (ops : IriOps P) (cb : St P → Str → Res P Unit) (st : St P) (s : Str) (d v : Bool) :
+    (iriExpandBody ops cb none st s d v).NoFuel := by
+  unfold iriExpandBody iriExpandRest
+  simp only [Res.bind]
+  repeat' split
+  all_goals (first | (simp [Res.NoFuel]; done) | exact expandTail_noFuel ops _ _ _ _ _)
 
 end RdfModel.JLC
